@@ -93,7 +93,7 @@ def run_case(case):
     moved = float(np.abs(ref[2] - ref[1]).max()) > 1e-9
     sc = float(np.abs(mode).max()) + 1.0
     for k in ITERS:
-        m.enroll_iterations = k
+        m.enroll_iterations = k if k % 2 else np.int64(k)  # also as a NumPy integer (np.arange, parameter grid, HDF5 attribute)
         out = m.enroll(copy.deepcopy(sts))
         c.transitions += 1
         y_ref, z_ref = J.split(ref[k])
@@ -135,7 +135,7 @@ def run_case(case):
             th = np.zeros(J2.dim)
             for k in (1, 2, 3):
                 th = J2.sweep(th)
-                m.enroll_iterations = k
+                m.enroll_iterations = k if k % 2 else np.int64(k)  # also as a NumPy integer (np.arange, parameter grid, HDF5 attribute)
                 out = m.enroll(copy.deepcopy(sts))
                 c.transitions += 1
                 y_ref, z_ref = J2.split(th)
@@ -159,7 +159,7 @@ def run_case(case):
             sc3 = float(np.abs(J3.mode()).max()) + 1.0
             for k in (1, 2, 3):
                 th = J3.sweep(th)
-                m.enroll_iterations = k
+                m.enroll_iterations = k if k % 2 else np.int64(k)  # also as a NumPy integer (np.arange, parameter grid, HDF5 attribute)
                 out = m.enroll(copy.deepcopy(sts))
                 c.transitions += 1
                 y_ref, z_ref = J3.split(th)
